@@ -103,3 +103,12 @@ Theorem evaluation_path_builds_fresh_containers :
   existsb (fun c => existsb (String.eqb (c_fn c)) go_eval_reachable && String.eqb (c_class c) "fresh") go_mutating_calls = true.
 Proof. exact TieWrites.evaluation_path_builds_fresh_containers. Qed.
 Print Assumptions evaluation_path_builds_fresh_containers.
+
+(* a call's outcome is a function of the evaluator and the datum only if the entries of a map are visited in an order the map's
+   contents fix: the code sorts the enumerated keys by byte order wherever it enumerates a map on the evaluation path *)
+From Bexpr Require Import GoTables TieOrder.
+Theorem c12_code_visits_maps_in_key_order :
+  forallb (fun r => negb (String.eqb (iter_file r) "evaluate.go") || String.eqb (iter_class r) "sorted-bytewise") GoTables.go_map_iteration = true
+  /\ existsb (fun r => String.eqb (iter_file r) "evaluate.go" && String.eqb (iter_class r) "sorted-bytewise") GoTables.go_map_iteration = true.
+Proof. exact (conj TieOrder.evaluation_visits_maps_in_key_order TieOrder.evaluation_enumerates_a_map). Qed.
+Print Assumptions c12_code_visits_maps_in_key_order.
